@@ -7,7 +7,9 @@
 (* sign of y. The remaining 381 bits are the x coordinate (G2: x.c1 then     *)
 (* x.c0, 48 bytes each, flags on c1). Whether a coordinate below p is on the *)
 (* curve and in the prime-order subgroup is NOT decided here: these two      *)
-(* facts are inputs (an oracle table produced with raw blst calls).          *)
+(* facts (about x mod p) are inputs, an oracle table produced with raw blst  *)
+(* calls; canonicity of the coordinate (x < p) and the flags are decided     *)
+(* here.                                                                     *)
 EXTENDS BigNat, FiniteSets
 
 \* field modulus p and group order r, big-endian
@@ -56,10 +58,11 @@ XClass(kind, b, oncurve, insub) ==
   ELSE IF ~XBelowP(kind, b) THEN "gep"
   ELSE IF ~oncurve THEN "offcurve"
   ELSE IF insub THEN "insub" ELSE "offsub"
-\* the oracle facts must be coherent with what the string itself shows
+\* the oracle facts are about the coordinate reduced modulo p (is x mod p the abscissa of a curve point, of a
+\* subgroup point); whether the coordinate is written canonically (x < p) is decided here, by XBelowP
 OracleCoherent(kind, b, oncurve, insub) ==
   /\ Len(b) = EncLen(kind) /\ \A j \in 1..Len(b) : b[j] \in 0..255
-  /\ (insub => oncurve) /\ (oncurve => XBelowP(kind, b))
+  /\ (insub => oncurve)
 
 Checked(kind, b, oncurve, insub) == CheckedT(CBit(b), IBit(b), SBit(b), XClass(kind, b, oncurve, insub))
 CurvePoint(kind, b, oncurve, insub) == CurvePointT(CBit(b), IBit(b), SBit(b), XClass(kind, b, oncurve, insub))
